@@ -268,22 +268,32 @@ wait:
 	return o
 }
 
-// mainTaskBlockedOnChannel inspects the goroutine dump: the main task (the goroutine started by Run) must be
-// parked in a channel operation for a run to be called a deadlock.
+// mainTaskBlockedOnChannel inspects the goroutine dump: a run is a deadlock only if the main task (the goroutine
+// started by Run) is parked in a channel operation AND every other task of the simulated program (goroutines started
+// through simrt.Go that belong to this run, i.e. are not parked in a channel send left over from earlier runs whose
+// receiver is gone) is parked too. A task that is merely runnable on a loaded machine is not a deadlock.
 func mainTaskBlockedOnChannel() bool {
-	buf := make([]byte, 1<<20)
+	buf := make([]byte, 4<<20)
 	n := runtime.Stack(buf, true)
+	mainParked := false
 	for _, g := range strings.Split(string(buf[:n]), "\n\n") {
-		if !strings.Contains(g, "enga.Run.func") || !strings.Contains(g, "ParseAndBuild") && !strings.Contains(g, "GenFromString") {
-			continue
-		}
 		head := g
 		if i := strings.Index(g, "\n"); i >= 0 {
 			head = g[:i]
 		}
-		return strings.Contains(head, "[chan receive") || strings.Contains(head, "[chan send") || strings.Contains(head, "[select")
+		parked := strings.Contains(head, "[chan receive") || strings.Contains(head, "[chan send") || strings.Contains(head, "[select")
+		isMain := strings.Contains(g, "enga.Run.func") && (strings.Contains(g, "ParseAndBuild") || strings.Contains(g, "GenFromString"))
+		isTask := strings.Contains(g, "simrt.Go.func1")
+		if isMain {
+			if !parked {
+				return false
+			}
+			mainParked = true
+		} else if isTask && !parked {
+			return false // some task can still run (lexer computing the next token, or waiting for a CPU)
+		}
 	}
-	return false
+	return mainParked
 }
 
 // Schedules
